@@ -27,7 +27,18 @@ VARIABLES l, fails, st, stats, done
 tvars == <<l, fails, st, stats, done>>
 
 StoreSet(q) == {q[i] : i \in DOMAIN q}
-Stats0 == [drift |-> 0, stage_ok |-> 0, omitted |-> 0, requested |-> 0, trans_ok |-> 0, bad_transfer |-> 0,
+
+\* the I/O fault the driver arranged around a Stage or Recv call:
+\*   [kind |-> "none"] | [kind |-> "fsize", limit |-> bytes]  RLIMIT_FSIZE: genuine short write + EFBIG
+\*   | [kind |-> "rename"]  the rename of the temporary file into the store fails
+FaultOf(r) == IF Has(r, "fault") THEN r.fault ELSE [kind |-> "none"]
+\* does the fault strike a file of sz bytes written in full?
+Strikes(f, sz) == CASE f.kind = "fsize" -> sz > f.limit [] f.kind = "rename" -> TRUE [] OTHER -> FALSE
+\* size cap in force for this call
+CapOf(m, f) == IF f.kind = "fsize" /\ f.limit < m.maxfile THEN f.limit ELSE m.maxfile
+StruckReq(r) == {j \in DOMAIN r.req : Strikes(FaultOf(r), r.req[j].sz)}
+StruckPlan(r) == {j \in DOMAIN r.plan : r.plan[j].kind \in {"exact", "split", "corrupt"} /\ Strikes(FaultOf(r), r.plan[j].sz)}
+Stats0 == [struck |-> 0, drift |-> 0, stage_ok |-> 0, omitted |-> 0, requested |-> 0, trans_ok |-> 0, bad_transfer |-> 0,
            over_limit |-> 0, refused |-> 0, readonly |-> 0, landed |-> 0]
 
 ScanChecks(i, m, r) ==
@@ -39,7 +50,11 @@ StageChecks(i, m, r) ==
   \o Chk(Want, i, "C41_ReadOnlyRefuses", C41_ReadOnlyRefuses(m, r.err, r.disk0, r.disk1, s0, s1))
   \o Chk(Want, i, "C41_StageSubseq", r.err = "" => C41_StageSubseq(r.req, r.ret))
   \o Chk(Want, i, "C41_OmittedAvailable", r.err = "" => C41_OmittedAvailable(r.disk0, s0, r.req, r.ret, s1))
-  \o Chk(Want, i, "C41_RequestedNeeded", r.err = "" => C41_RequestedNeeded(m, r.disk0, s0, r.req, r.ret))
+  \o Chk(Want, i, "C41_RequestedNeeded",
+         r.err = "" => C41_RequestedNeeded(m, {r.req[j].path : j \in StruckReq(r)}, r.disk0, s0, r.req, r.ret))
+  \o Chk(Want, i, "C10_WriteFaultsSurface",
+         C10_WriteFaultsSurface({[path |-> r.req[j].path, d |-> r.req[j].d] : j \in StruckReq(r)}, s0, s1))
+  \o Chk(Want, i, "C10_StagedWithinSizeLimit", C10_StagedWithinSizeLimit(s1, m.maxfile))
   \o Chk(Want, i, "C41_StageLeavesRoot", C41_StageLeavesRoot(r.disk0, r.disk1))
   \o Chk(Want, i, "C10_StoreContentAddressed", C10_StoreContentAddressed(s1))
   \o Chk(Want, i, "C10_StagedWithinSizeLimit", C10_StagedWithinSizeLimit(s1, m.maxfile))
@@ -48,7 +63,11 @@ RecvChecks(i, m, r) ==
      Chk(Want, i, "C10_StoreContentAddressed", C10_StoreContentAddressed(StoreSet(r.store1)))
   \o Chk(Want, i, "C10_StagedWithinSizeLimit", C10_StagedWithinSizeLimit(StoreSet(r.store1), m.maxfile))
   \o Chk(Want, i, "C10_FittingTransferStaged",
-         C10_FittingTransferStaged(m.init /\ ~m.sdirty /\ r.err = "", m.maxfile, r.plan, StoreSet(r.store1)))
+         C10_FittingTransferStaged(m.init /\ ~m.sdirty /\ r.err = "" /\ FaultOf(r).kind # "rename", CapOf(m, FaultOf(r)),
+                                   r.plan, StoreSet(r.store1)))
+  \o Chk(Want, i, "C10_WriteFaultsSurface",
+         C10_WriteFaultsSurface({[path |-> r.plan[j].path, d |-> r.plan[j].d] : j \in StruckPlan(r)},
+                                StoreSet(r.store0), StoreSet(r.store1)))
   \o Chk(Want, i, "C41_StageLeavesRoot", C41_StageLeavesRoot(r.disk0, r.disk1))
 
 TransChecks(i, m, r) ==
@@ -89,13 +108,15 @@ Bump(sx, m, r) ==
          LET ok == r.err = ""
              nom == Cardinality({j \in DOMAIN r.req : \A k \in DOMAIN r.ret : r.ret[k] # r.req[j].path})
              \* (the mechanism model measures sizes in write units: compared only without a byte limit)
-             conf == ~ok \/ m.maxfile # Unlimited \/ r.ret \in {o.ret : o \in StageWalk(m, r.disk0, r.req, StoreSet(r.store0), <<>>)}
+             conf == ~ok \/ m.maxfile # Unlimited \/ FaultOf(r).kind # "none" \/ r.ret \in {o.ret : o \in StageWalk(m, r.disk0, r.req, StoreSet(r.store0), <<>>, NoFault)}
          IN [sx EXCEPT !.stage_ok = @ + (IF ok /\ Len(r.req) > 0 THEN 1 ELSE 0),
                        !.omitted = @ + (IF ok THEN nom ELSE 0),
                        !.requested = @ + (IF ok THEN Len(r.ret) ELSE 0),
                        !.refused = @ + (IF ok THEN 0 ELSE 1),
                        !.readonly = @ + (IF m.ro THEN 1 ELSE 0),
+                       !.struck = @ + Cardinality(StruckReq(r)),
                        !.drift = @ + (IF "Conforms" \in Want /\ ~conf THEN 1 ELSE 0)]
+    [] r.ev = "Recv" -> [sx EXCEPT !.struck = @ + Cardinality(StruckPlan(r))]
     [] r.ev = "Trans" ->
          LET ok == r.err = ""
              s0 == StoreSet(r.store0)
@@ -118,7 +139,7 @@ Step == /\ l <= NRec
         /\ l' = l + 1 /\ UNCHANGED done
 Finish == /\ l = NRec + 1 /\ ~done
           /\ WriteResult(l - 1, fails,
-                [stat_drift |-> stats.drift, stat_stage_ok |-> stats.stage_ok, stat_omitted |-> stats.omitted,
+                [stat_io_fault_struck |-> stats.struck, stat_drift |-> stats.drift, stat_stage_ok |-> stats.stage_ok, stat_omitted |-> stats.omitted,
                  stat_requested |-> stats.requested, stat_trans_ok |-> stats.trans_ok,
                  stat_bad_transfer |-> stats.bad_transfer, stat_over_limit |-> stats.over_limit,
                  stat_refused |-> stats.refused, stat_readonly_calls |-> stats.readonly, stat_landed |-> stats.landed])
